@@ -390,7 +390,34 @@ func (e *Engine) reflectIntrinsic(fn *ssa.Function, full string, args []Value) (
 		}
 		e.goPanic("reflect: call of reflect.Value.Len on unsupported value")
 	case "(reflect.Value).Bool", "(reflect.Value).Int", "(reflect.Value).Uint", "(reflect.Value).Float", "(reflect.Value).String":
-		return args[0].(RVal).load(), true
+		r := args[0].(RVal)
+		if r.typ == nil {
+			if fn.Name() == "String" {
+				return mkStr("<invalid Value>"), true
+			}
+			e.goPanic("reflect: call of reflect.Value." + fn.Name() + " on zero Value")
+		}
+		k := kindOf(r.typ)
+		okKind := false
+		switch fn.Name() {
+		case "Bool":
+			okKind = k == reflect.Bool
+		case "Int":
+			okKind = k >= reflect.Int && k <= reflect.Int64
+		case "Uint":
+			okKind = k >= reflect.Uint && k <= reflect.Uintptr
+		case "Float":
+			okKind = k == reflect.Float32 || k == reflect.Float64
+		case "String":
+			if k != reflect.String {
+				unsupported("reflect.Value.String of a non-string value")
+			}
+			okKind = true
+		}
+		if !okKind {
+			e.goPanic("reflect: call of reflect.Value." + fn.Name() + " on " + k.String() + " Value")
+		}
+		return r.load(), true
 	case "(reflect.Kind).String":
 		k := args[0].(*Term)
 		if k.konst {
